@@ -198,6 +198,8 @@ def run(ctx):
     # load as a program over the file object (Props/C06_<X>Load.lean): the real constructor on FaultFile vs the model
     for name in ("asf_tie", "dsf_tie", "iff_tie", "ogginject_tie", "mp4file_tie", "id3file_tie", "apefile_tie", "flacload_tie"):
         importlib.import_module(name).run_load_faults(ctx)
+    # FLAC.save with its real reads (Props/C06_FlacSave.lean)
+    importlib.import_module("flacload_tie").run_save_faults(ctx)
 
 def search(ctx):
     old = ctx.tier; ctx.tier = "thorough"
